@@ -1,7 +1,7 @@
 """Deterministic thread scheduler (CHESS-style) for the one threaded component.
 
 Real OS threads run the real code, but only the thread holding the token runs.
-``threading.Thread``, ``threading.Event``, ``time.sleep`` and ``time.time`` are
+``threading.Thread``, ``threading.Event``, ``threading.Lock`` / ``RLock``, ``time.sleep`` and ``time.time`` are
 replaced on the real modules (install()), and the recording stream calls
 ``point("write")`` before every write, so that start / join / event operations /
 sleeps / stream writes are the scheduling points.  A *sleeping* thread is a
@@ -12,7 +12,7 @@ import _thread
 import threading as _th
 import time as _time
 
-_ORIG = dict(Thread=_th.Thread, Event=_th.Event, sleep=_time.sleep, time=_time.time)
+_ORIG = dict(Thread=_th.Thread, Event=_th.Event, sleep=_time.sleep, time=_time.time, Lock=_th.Lock, RLock=_th.RLock)
 _tl = _th.local()
 SCHED = None
 
@@ -23,7 +23,7 @@ class Killed(BaseException):
 
 class Sched(object):
     def __init__(self, choose, max_steps=600):
-        self.cv = _th.Condition(_th.Lock())
+        self.cv = _th.Condition(_thread.allocate_lock())
         self.threads = {}
         self.current = None
         self.trace = []
@@ -68,6 +68,8 @@ class Sched(object):
             if b is None or b[0] == "sleep":
                 r.append(n)
             elif b[0] == "join" and self.threads[b[1]]["status"] == "done":
+                r.append(n)
+            elif b[0] == "lock" and (b[1].owner is None or b[1].owner == n):
                 r.append(n)
         return r
 
@@ -180,6 +182,67 @@ class ShimEvent(object):
         return self.f
 
 
+class ShimLock(object):
+    """threading.Lock / RLock under the scheduler: acquiring is a scheduling point, a thread waiting for a lock held
+    by another thread is not runnable (so a cycle of waits shows up as 'no thread can run').  Locks created outside
+    a scheduled run, or by threads the scheduler does not know, are the real ones."""
+
+    reentrant = False
+
+    def __new__(cls, *a, **k):
+        if SCHED is None or Sched.me() not in SCHED.threads:
+            return (_ORIG["RLock"] if cls.reentrant else _ORIG["Lock"])()
+        return object.__new__(cls)
+
+    def __init__(self):
+        self.owner = None
+        self.count = 0
+
+    def acquire(self, blocking=True, timeout=-1):
+        me = Sched.me()
+        if self.owner == me:
+            if self.reentrant:
+                self.count += 1
+                return True
+            if not blocking:
+                return False
+            # a plain lock taken twice by the same thread never returns
+            SCHED.point("lock.acquire", ("lock-self", self))
+            return False
+        if not blocking:
+            SCHED.point("lock.try")
+            if self.owner is not None:
+                return False
+        else:
+            SCHED.point("lock.acquire", ("lock", self))
+        self.owner = me
+        self.count = 1
+        return True
+
+    def release(self):
+        if self.owner != Sched.me():
+            raise RuntimeError("cannot release un-acquired lock")
+        self.count -= 1
+        if self.count == 0:
+            self.owner = None
+            SCHED.point("lock.release")
+
+    def locked(self):
+        return self.owner is not None
+
+    def __enter__(self):
+        self.acquire()
+        return self
+
+    def __exit__(self, *exc):
+        self.release()
+        return False
+
+
+class ShimRLock(ShimLock):
+    reentrant = True
+
+
 def shim_sleep(d):
     SCHED.point("sleep", ("sleep", SCHED.now + max(d, 0)))
 
@@ -191,6 +254,8 @@ def shim_time():
 def install():
     _th.Thread = ShimThread
     _th.Event = ShimEvent
+    _th.Lock = ShimLock
+    _th.RLock = ShimRLock
     _time.sleep = shim_sleep
     _time.time = shim_time
 
